@@ -74,6 +74,22 @@ pub fn check_automaton(rep: &mut Report, auto: &mut Automaton, origin: &str, kin
                     found.map(|c| auto.next(s, c).id())
                 }
             };
+            if let ClassId::Interval(k) = cid {
+                use aws_smt_strings::character_sets::CharSet;
+                let (a, b) = ranges[k];
+                match guard(|| auto.char_set_next(s, &CharSet::range(a, b)).map(|t| t.id())) {
+                    Ok(Ok(id)) if id == nx.id() => {}
+                    other => bad!("edges", "char_set_next(state {}, [{:x},{:x}]) = {:?} but that class goes to {}", i, a, b, other, nx.id()),
+                }
+                // {b, b+1} straddles the end of the class: b+1 lies in the next interval or in the complementary class
+                if b < MAXC {
+                    let r = guard(|| auto.char_set_next(s, &CharSet::range(b, b + 1)).map(|t| t.id()));
+                    if !matches!(r, Ok(Err(_))) {
+                        bad!("edges", "char_set_next(state {}, [{:x},{:x}]) = {:?} although the set meets two classes", i, b, b + 1, r);
+                    }
+                }
+                rep.inc("char_set_next_probes");
+            }
             if via_class != nx.id() || via_char.map_or(false, |x| x != nx.id()) {
                 bad!("edges", "edges(state {}) says class {} goes to {}, class_next says {}, next() on a character of the class says {:?}", i, cid, nx.id(), via_class, via_char);
             }
